@@ -101,6 +101,7 @@ type Link struct {
 	pongDelay    time.Duration
 	pongSilentAt time.Duration // <0: never silent
 	stopReading  bool          // the silent peer also stops reading: after the first ping it leaves unanswered, writes block
+	stopReadingFirst bool      // ... or from the moment it falls silent: the next ping is not even taken
 	PingLog      []pingRec     // pings written by the client (id, time)
 	PongLog      []pingRec     // pongs written by the client (for broker pings)
 
@@ -191,6 +192,12 @@ func (l *Link) Write(b []byte) error {
 	if l.isDead {
 		s.mu.Unlock()
 		return l.deadWriteErr
+	}
+	if l.pongModel && l.stopReadingFirst && !l.stalled && l.pongSilentAt >= 0 && s.Now() >= l.pongSilentAt {
+		// the peer stops reading at the moment it falls silent: from then on nothing is taken any more,
+		// not even the next keepalive ping
+		l.stalled = true
+		s.stats["fault.peer-stops-reading"]++
 	}
 	// back-pressure / slow link: the write is parked (durably) until the scheduler makes room
 	for l.stalled || (l.net.Window > 0 && len(l.c2b) >= l.net.Window && !l.blackhole) {
